@@ -65,6 +65,8 @@ pub mod nnum;
 mod optim;
 mod rc;
 mod streams;
+#[cfg(betaveros_noulith_verif)]
+pub mod verif_hooks;
 // mod optim;
 use crate::few::*;
 use crate::iter::*;
